@@ -217,12 +217,40 @@ pub fn f64_pool() -> Vec<f64> {
         v.push((2f64).powi(k));
         v.push(-(2f64).powi(k));
     }
+    // the doubles next to "nice" numbers (one and two steps either side): 1 - 2^-53 is not 1
+    for b in [1.0f64, 0.5, 2.0, 24.0, 1.0 / 24.0, 1.0 / 1440.0, 1.0 / 86_400.0, 86_400.0, 365.0, 0.25, 1e-6 / 86_400.0] {
+        for s in [-2i64, -1, 1, 2] {
+            let x = f64::from_bits((b.to_bits() as i64 + s) as u64);
+            v.push(x);
+            v.push(-x);
+        }
+    }
+    // a day (or an hour, a second) less or more half a microsecond, expressed in days
+    for b in [1.0f64, 1.0 / 24.0, 1.0 / 86_400.0, 2.0, 100.0] {
+        for e in [-0.6f64, -0.5, -0.4, 0.4, 0.5, 0.6] {
+            v.push(b + e / 86_400e6);
+            v.push(-(b + e / 86_400e6));
+        }
+    }
     v
 }
 
 /// a random finite f64 with a random exponent in a useful band, or a "nice" number
 pub fn rand_f64(rng: &mut Rng) -> f64 {
-    match rng.below(10) {
+    match rng.below(12) {
+        // whole seconds / minutes / hours / milliseconds of any magnitude expressed in days (how users build such offsets)
+        10 => {
+            let per_day = *rng.pick(&[86_400.0f64, 1_440.0, 24.0, 86_400_000.0]);
+            let (e1, e2) = (20 + rng.below(22), 20 + rng.below(22));
+            let k = rng.range_i64(-(1i64 << e1), 1i64 << e2);
+            k as f64 / per_day
+        }
+        // a whole number of seconds plus half a second, a few microseconds off, expressed in days
+        11 => {
+            let (e1, e2) = (10 + rng.below(30), 10 + rng.below(30));
+            let k = rng.range_i64(-(1i64 << e1), 1i64 << e2);
+            (k as f64 * 1e6 + 500_000.0 + rng.range_i64(-30, 30) as f64) / 86_400e6
+        }
         0 => *rng.pick(&f64_pool()),
         1 => (rng.range_i64(-1000, 1000)) as f64,
         2 => (rng.range_i64(-100_000, 100_000)) as f64 / 1000.0,
